@@ -5,6 +5,7 @@ package main
 // Lean driver and (b) the observation line(s) in the driver's output format.
 
 import (
+	"bufio"
 	"bytes"
 	"encoding/hex"
 	"encoding/json"
@@ -1298,6 +1299,37 @@ func (x *Exec) do1(line string) (res string, leanLine string) {
 			extra = " rc=" + joinC(l)
 		}
 		return fmt.Sprintf("res=%s out=%s%s", classify(err), hx(fw.acc.String()), extra), line
+	case "renderbuf": // RenderTo into a standard-library writer kind: buffer | builder | bufio
+		w := x.wrappers[idOf(toks[1])]
+		x.curTable = w.core
+		rcCalls = nil
+		var err error
+		var got string
+		switch toks[2] {
+		case "builder":
+			var sb strings.Builder
+			err = w.obj.RenderTo(&sb)
+			got = sb.String()
+		case "bufio":
+			var bb bytes.Buffer
+			bw := bufio.NewWriter(&bb)
+			err = w.obj.RenderTo(bw)
+			bw.Flush()
+			got = bb.String()
+		default:
+			var bb bytes.Buffer
+			err = w.obj.RenderTo(&bb)
+			got = bb.String()
+		}
+		extra := ""
+		if w.kind == "html" {
+			var l []string
+			for _, n := range rcCalls {
+				l = append(l, strconv.Itoa(n))
+			}
+			extra = " rc=" + joinC(l)
+		}
+		return fmt.Sprintf("res=%s out=%s%s", classify(err), hx(got), extra), "render " + toks[1]
 	case "renderstr":
 		w := x.wrappers[idOf(toks[1])]
 		x.curTable = w.core
@@ -1321,6 +1353,7 @@ func (x *Exec) do1(line string) (res string, leanLine string) {
 		return fmt.Sprintf("res=%s calls=%d acc=%s", classify(err), fw.calls, hx(fw.acc.String())), leanLine
 	case "register":
 		decoration.RegisterDecorationName(unhx(toks[1]), parseDecor(toks[2]))
+		registeredNames[unhx(toks[1])] = toks[2]
 		return "ok", line
 	case "named":
 		return showDecor(decoration.Named(unhx(toks[1]))), line
@@ -1382,6 +1415,11 @@ func (x *Exec) do1(line string) (res string, leanLine string) {
 
 var lastChunks = map[int][]int{}
 var lastPanic string
+
+// registeredNames: every decoration name this process registered (name -> encoded decoration),
+// kept by the harness so the oracles do not have to trust the registry's own listing.
+var registeredNames = map[string]string{}
+var builtinNames = decoration.RegisteredDecorationNames()
 var rcCalls []int
 
 func itemSame(a, b interface{}) (same bool) {
